@@ -13,7 +13,7 @@ import (
 func init() {
 	register(&Property{
 		ID:        "C09",
-		Technique: "typestate over the reader loop (size test before every read, after every append, never between a read and the next parse), guard dominance, compiler BCE report",
+		Technique: "typestate over the reader loop (size test before every read, after every append, never between a read and the next parse), guard dominance, compiler BCE report backed by the difference-constraint bounds prover",
 		Explanation: "Statically decidable part of 'packet reassembly depends only on the byte stream and is memory-bounded': " +
 			"(R1) memory bound: every transport read in the reader loop is preceded by a passed size test of the unparsed buffer against the configured maximum; the buffer grows only behind a free-space test and to a bounded function of its own size and the configured maximum; every append to the packet is covered by a size test (after it, or of len(pkt.Data)+len(fr.Data) before appending exactly fr.Data) before the next frame is parsed; a zero maximum is replaced by a positive constant; " +
 			"(R2) control marking and discard-on-new-id: the packet's control flag is or-ed with each frame's, a frame with a new id resets the packet to that frame's id/kind/control with empty data; " +
@@ -62,6 +62,14 @@ func (ra readerAnchors) limitTest(cond ssa.Value) (fields []*types.Var, overOnTr
 		return nil, false, false
 	}
 	var lhs ssa.Value
+	var moved ssa.Value // a length subtracted from the maximum on the other side: x > max - y is x + y > max
+	if sub, isSub := b.Y.(*ssa.BinOp); isSub && sub.Op == token.SUB && isLoadOfField(sub.X, ra.maxF) {
+		b = &ssa.BinOp{Op: b.Op, X: b.X, Y: sub.X}
+		moved = sub.Y
+	} else if sub, isSub := b.X.(*ssa.BinOp); isSub && sub.Op == token.SUB && isLoadOfField(sub.X, ra.maxF) {
+		b = &ssa.BinOp{Op: b.Op, X: sub.X, Y: b.Y}
+		moved = sub.Y
+	}
 	switch {
 	case isLoadOfField(b.Y, ra.maxF) && (b.Op == token.GTR || b.Op == token.GEQ):
 		lhs, overOnTrue = b.X, true
@@ -97,6 +105,9 @@ func (ra readerAnchors) limitTest(cond ssa.Value) (fields []*types.Var, overOnTr
 		}
 	}
 	walk(lhs, 0)
+	if moved != nil {
+		walk(moved, 0)
+	}
 	return fields, overOnTrue, len(fields) > 0
 }
 
@@ -107,6 +118,22 @@ func has(fields []*types.Var, f *types.Var) bool {
 		}
 	}
 	return false
+}
+
+// appendToPacket: v is pkt.Data with something appended (however that is spelled: append, or a re-allocation that
+// copies both parts); exact if what is appended is exactly fr.Data.
+func (ra readerAnchors) appendToPacket(v ssa.Value) (grows, exact bool) {
+	if call, ok := v.(*ssa.Call); ok {
+		if bi, isB := call.Common().Value.(*ssa.Builtin); isB && bi.Name() == "append" {
+			args := call.Common().Args
+			return true, len(args) == 2 && isLoadOfField(args[0], ra.pkData) && isLoadOfField(args[1], ra.frData)
+		}
+	}
+	parts, ok := concatParts(v, 0)
+	if !ok || len(parts) < 2 || !isLoadOfField(parts[0], ra.pkData) {
+		return false, false
+	}
+	return true, len(parts) == 2 && isLoadOfField(parts[1], ra.frData)
 }
 
 // readerSizeFlow is the typestate both size rules read:
@@ -161,14 +188,11 @@ func readerSizeFlow(ra readerAnchors) *an.Flow {
 					}
 					return []string{delTag(st, "sized")}
 				case ra.pkData.Origin():
-					if call, ok := x.Val.(*ssa.Call); ok {
-						if bi, isB := call.Common().Value.(*ssa.Builtin); isB && bi.Name() == "append" {
-							args := call.Common().Args
-							if hasTag(st, "presized") && len(args) == 2 && isLoadOfField(args[0], ra.pkData) && isLoadOfField(args[1], ra.frData) {
-								return []string{delTag(st, "presized")}
-							}
-							return []string{addTag(delTag(st, "presized"), "grown")}
+					if grows, exact := ra.appendToPacket(x.Val); grows {
+						if hasTag(st, "presized") && exact {
+							return []string{delTag(st, "presized")}
 						}
+						return []string{addTag(delTag(st, "presized"), "grown")}
 					}
 					if hasTag(st, "presized") {
 						return []string{addTag(delTag(st, "presized"), "stale")}
@@ -258,6 +282,19 @@ func c09r1(c *an.Ctx) {
 	an.Instrs(fn, func(in ssa.Instruction) {
 		mk, ok := in.(*ssa.MakeSlice)
 		if !ok {
+			return
+		}
+		// the read buffer: the allocation ends up in Reader.buf (other allocations, such as a re-allocated packet
+		// buffer, are bounded by the packet-size rules)
+		toBuf := false
+		for _, r := range *mk.Referrers() {
+			if st, isSt := r.(*ssa.Store); isSt && st.Val == ssa.Value(mk) {
+				if fv := an.PathOf(st.Addr).Last(); fv != nil && fv.Origin() == ra.buf.Origin() {
+					toBuf = true
+				}
+			}
+		}
+		if !toBuf {
 			return
 		}
 		nGrow++
@@ -560,11 +597,7 @@ func c09r4(c *an.Ctx) {
 			if fv := an.PathOf(x.Addr).Last(); fv == nil || fv.Origin() != ra.pkData.Origin() {
 				return
 			}
-			call, ok := x.Val.(*ssa.Call)
-			if !ok {
-				return
-			}
-			if bi, isB := call.Common().Value.(*ssa.Builtin); !isB || bi.Name() != "append" {
+			if grows, _ := ra.appendToPacket(x.Val); !grows {
 				return
 			}
 			stale := false
